@@ -353,10 +353,9 @@ func ReleaseAST(ast *AST) {
 	// Reset slice but keep capacity
 	ast.Statements = ast.Statements[:0]
 
-	// Reset comments but keep capacity
-	if cap(ast.Comments) > 0 {
-		ast.Comments = ast.Comments[:0]
-	}
+	// Comments are not pooled and their slice may be one the caller still holds
+	// (the tokenizer's): drop it rather than keep its backing array for the next holder
+	ast.Comments = nil
 
 	// Return to pool
 	astPool.Put(ast)
@@ -412,7 +411,7 @@ func PutInsertStatement(stmt *InsertStatement) {
 			PutExpression(stmt.Values[i][j])
 			stmt.Values[i][j] = nil
 		}
-		stmt.Values[i] = stmt.Values[i][:0]
+		stmt.Values[i] = nil
 	}
 
 	// Reset every field; keep the capacity of the two slices that are reused
@@ -544,7 +543,7 @@ func PutSelectStatement(stmt *SelectStatement) {
 	stmt.Columns = stmt.Columns[:0]
 
 	for i := range stmt.OrderBy {
-		stmt.OrderBy[i].Expression = nil
+		stmt.OrderBy[i] = OrderByExpression{}
 	}
 	stmt.OrderBy = stmt.OrderBy[:0]
 
@@ -774,6 +773,7 @@ func PutExpression(expr Expression) {
 				if e.WhenClauses[i].Result != nil {
 					workQueue = append(workQueue, e.WhenClauses[i].Result)
 				}
+				e.WhenClauses[i] = WhenClause{}
 			}
 			if e.ElseClause != nil {
 				workQueue = append(workQueue, e.ElseClause)
@@ -839,6 +839,7 @@ func PutExpression(expr Expression) {
 				if e.Indices[i] != nil {
 					workQueue = append(workQueue, e.Indices[i])
 				}
+				e.Indices[i] = nil
 			}
 			e.Array = nil
 			e.Indices = e.Indices[:0]
@@ -1012,6 +1013,7 @@ func PutCaseExpression(ce *CaseExpression) {
 	for i := range ce.WhenClauses {
 		PutExpression(ce.WhenClauses[i].Condition)
 		PutExpression(ce.WhenClauses[i].Result)
+		ce.WhenClauses[i] = WhenClause{}
 	}
 	ce.WhenClauses = ce.WhenClauses[:0]
 	PutExpression(ce.ElseClause)
@@ -1185,6 +1187,7 @@ func PutArraySubscriptExpression(ase *ArraySubscriptExpression) {
 		if ase.Indices[i] != nil {
 			PutExpression(ase.Indices[i])
 		}
+		ase.Indices[i] = nil
 	}
 	ase.Indices = ase.Indices[:0] // Clear slice but keep capacity
 	arraySubscriptExprPool.Put(ase)
